@@ -281,10 +281,15 @@ def run_one(desc):
     stuck_on = set(h["sig"].rsplit(":", 1)[1] for h in hits if h["sig"].startswith("C04/nested-submit-blocks:lock-held-by-sleeper:"))
     hits = [h for h in hits if not (h["sig"].startswith("C04/deadlock:lock-held-by-sleeper:") and h["sig"].rsplit(":", 1)[1] in stuck_on)]
     if s.end_reason == "idle" and not ctx.completed:
+        # the lock(s) on which the retry submit thread of the known cycle is stuck: any other nested submit queueing behind the same
+        # lock (say a done-callback run by the poll thread of a layer above) is collateral of that deadlock, not a second one
+        known_locks = set(park[1] for (tid, park, role, name) in parked
+                          if tid in pend and park and park[0] == "lock" and inline_base and has_retry and role == "lib"
+                          and str(name).startswith("RetryExecutor"))
         for (tid, park, role, name) in parked:
             if tid in pend and park and park[0] == "lock":
                 sig = "C04/nested-submit-blocks:%s" % desc["base"]
-                if inline_base and has_retry and role == "lib" and str(name).startswith("RetryExecutor"):
+                if inline_base and has_retry and ((role == "lib" and str(name).startswith("RetryExecutor")) or park[1] in known_locks):
                     sig = "C04/deadlock:nested-submit:retry-over-inline-delegate"
                 hits.append(hit(sig, "a submit() issued from inside %s blocks for ever on lock %s "
                                 "(layers %r, base %s)" % (pend[tid], park[1], [l[0] for l in desc["layers"]], desc["base"])))
